@@ -43,6 +43,50 @@ REG = {
     "C10": _sched("C10", "task trees depth<=5 incl. milestone-only containers and unschedulable leaves; non-trivial = at least one container; "
                   "distinct = (depth, #containers, any unscheduled leaf?, any scheduled leaf?, mode)", 3000, 60000, 40, 150,
                   ["containers-checked", "monitor:pick"]),
+    "C07": dict(module="vlib.props.c07", level="exploration",
+                rule="(a) every project of the small universe (<=3 leaf tasks x effort {1,2} slots x priority {low,high} x every labelled DAG x "
+                     "allocation among <=2 resources x calendar {default, half-day shift, one leave day} x {flat, one container}): complete in "
+                     "thorough, seeded 1/8 slice in quick; (b) random core-dialect projects (all resolutions, DAGs, priorities, gaps, pins, "
+                     "leaves, limits incl. task limits, teams, zones, nested containers). Every case: engine dates == reference list scheduler "
+                     "(either variant for pinned milestones) and M-pick order law. distinct = (dialect, resolution, #leaves, depth, team sizes, "
+                     "shifts?, limits?, zones?, #dependent tasks, picks reordered vs declaration?, contention?)",
+                quick=dict(cases=3000, budget_s=200, min_nontrivial=150, case_timeout=30),
+                thorough=dict(cases=60000, budget_s=1200, min_nontrivial=800, case_timeout=60),
+                deciding_monitors=["monitor:pick", "tasks-compared"],
+                assumptions=BASE_ASSUME + ["core dialect only (slot-aligned calendars, whole-slot efforts); cases where the reference itself "
+                                           "needs more horizon than the engine allotted are skipped and counted",
+                                           "pinned milestones: both placement orders (before the loop / in priority order) are accepted"]),
+    "C09": dict(module="vlib.props.meta", level="exploration",
+                rule="pairs (P, P + intruder): intruder = root-level leaf with strictly lowest priority, random effort/resource/pin/position, "
+                     "nothing depends on it; precondition 'same horizon' is observed from project end in both runs; non-trivial = the intruder "
+                     "books a resource-day that P's tasks use; distinct = (mode, resolution, position first/last, pinned?, >1 shared day, limits?, "
+                     "#resources); plus the two-task corollary",
+                quick=dict(cases=2500, budget_s=150, min_nontrivial=40, case_timeout=40),
+                thorough=dict(cases=40000, budget_s=900, min_nontrivial=150, case_timeout=60),
+                deciding_monitors=["pairs", "monitor:pick"], assumptions=BASE_ASSUME),
+    "C14": dict(module="vlib.props.meta", level="exploration",
+                rule="pairs (model, model with every date + k weeks), k in {1,4,26,52,53,104,157,209,313} or aimed at Jan 1-3 2021/2027/2033, "
+                     "Dec 31, Feb 29; UTC projects without resource zones; durations in days/weeks; distinct = (k class, what the shifted window "
+                     "straddles, limits?, mode, resolution, start weekday)",
+                quick=dict(cases=2500, budget_s=150, min_nontrivial=100, case_timeout=40),
+                thorough=dict(cases=40000, budget_s=900, min_nontrivial=500, case_timeout=60),
+                deciding_monitors=["pairs"], assumptions=BASE_ASSUME + ["resources carry no time zone (a DST zone legitimately breaks week-shift invariance)"]),
+    "C15": dict(module="vlib.props.meta", level="exploration",
+                rule="pairs (text, rewritten text) under: consistent renaming (prefix ids, local ids reused across containers and at root, "
+                     "keyword-like ids), relative/absolute references, depends<->precedes (options carried), shift reference<->inline hours, "
+                     "comments/whitespace, macros with and without arguments; singly and composed; distinct = (rewrite set, mode, depth, gaps?, "
+                     "shifts?, container deps?)",
+                quick=dict(cases=2500, budget_s=150, min_nontrivial=60, case_timeout=40),
+                thorough=dict(cases=40000, budget_s=900, min_nontrivial=200, case_timeout=60),
+                deciding_monitors=["pairs"], assumptions=BASE_ASSUME),
+    "C16": dict(module="vlib.props.meta", level="exploration",
+                rule="projects with 1-5 scenarios (nesting <= 3) and scenario-specific effort/start overrides: each scenario vs the single-scenario "
+                     "project with its effective attributes (same horizon observed), scenario without overrides vs parent, M-scen at every scenario "
+                     "entry (ledgers empty, limit counters zero, no object shared between scenarios); distinct = (#scenarios, nested count, "
+                     "#overrides, resolution, limits?, horizon extended?)",
+                quick=dict(cases=1200, budget_s=150, min_nontrivial=40, case_timeout=60),
+                thorough=dict(cases=20000, budget_s=900, min_nontrivial=150, case_timeout=90),
+                deciding_monitors=["scenario-comparisons", "monitor:scen-entry"], assumptions=BASE_ASSUME),
 }
 
 
